@@ -763,8 +763,16 @@ fn main() {
     fl.sort_by(|a, b| (a.did.len(), &a.did, a.case.family).cmp(&(b.did.len(), &b.did, b.case.family)));
     fl.dedup_by(|a, b| a.did == b.did);
     let keyed: Mutex<Vec<(usize, String, names::Attribution, bool)>> = Mutex::new(vec![]);
+    // every failing program must end in a verdict, also when the exploration above ran into its wall cap: the
+    // attribution phase has a clock of its own (and looks at the 600 smallest failing programs, which carry the
+    // minimal witnesses of every failure class; the others are counted)
+    if fl.len() > 600 {
+        rep.notes.push(format!("{} failing programs; attribution on the 600 smallest", fl.len()));
+        fl.truncate(600);
+    }
     let nfail = fl.len() as u64;
-    let r = ctx.par_range("attribution-and-recheck", nfail, 8, Pooled::take, |pooled, i, rep| {
+    let actx = Ctx::new("C17", tier, 3600);
+    let r = actx.par_range("attribution-and-recheck", nfail, 8, Pooled::take, |pooled, i, rep| {
         let node = pooled.node();
         let f = &fl[i as usize];
         // same input once more => same observation
